@@ -21,6 +21,9 @@ type failingSigner struct{ nkeys.KeyPair }
 
 func (failingSigner) Sign([]byte) ([]byte, error) { return nil, fmt.Errorf("signer unavailable") }
 
+// rotatingSigner is ONE signer object whose key is replaced between uses (a key-management service that rotates)
+type rotatingSigner struct{ nkeys.KeyPair }
+
 func ownID(cd jwt.ClaimsData) (string, []byte) {
 	cd.ID = ""
 	j, _ := json.Marshal(&cd)
@@ -209,6 +212,7 @@ func runC12(c *Ctx) {
 				}
 			}
 			// decoders report exactly the stamped values
+			poisonStep() // (what came before must not matter)
 			d, derr := jwt.Decode(tok)
 			if derr != nil {
 				inp["error"] = derr.Error()
@@ -260,6 +264,35 @@ func runC12(c *Ctx) {
 			}
 			if i%101 == 0 {
 				c.sample(map[string]interface{}{"kind": kind, "id": cd.ID, "hashed_text": string(text)})
+			}
+		}
+	}
+	// one signer object, its key replaced between two Encodes: the issuer stamped is the key that signs NOW, and the
+	// token verifies under it (claims of every kind, fresh objects and the same object again)
+	for _, kind := range kindNames {
+		for rep := 0; rep < 6; rep++ {
+			cl1, s1 := g.newClaims(kind)
+			cl2, _ := g.newClaims(kind)
+			s2 := newSigner(s1.role)
+			rs := &rotatingSigner{s1.kp}
+			if _, err := cl1.Encode(rs); err != nil {
+				continue
+			}
+			rs.KeyPair = s2.kp
+			for which, cl := range []jwt.Claims{cl2, cl1} {
+				tok, err := cl.Encode(rs)
+				c.sum.Evaluations++
+				c.sum.ImplChecks++
+				if err != nil {
+					continue
+				}
+				inp := map[string]interface{}{"kind": kind, "signer_role": s1.role, "token": tok, "note": "the signer object's key was replaced after an earlier Encode", "same_claims_object_again": which == 1}
+				if cl.Claims().Issuer != s2.pub {
+					c.violation("C12: issuer is not the signing key's public key", inp)
+				} else if d, derr := jwt.Decode(tok); derr != nil || d.Claims().Issuer != s2.pub {
+					c.violation("C03: Decode refuses the token", inp)
+				}
+				c.count("signer_object_with_replaced_key")
 			}
 		}
 	}
